@@ -104,6 +104,22 @@ func (f *Frame) call(x ssa.CallInstruction, st *State) Val {
 	if fv.Fn != nil {
 		return f.callFunc(fv.Fn, fv.Bind, args, rt, st, pos)
 	}
+	// a value of a named function type may carry an assumed contract
+	// ("iface <pkgpath>.<TypeName>.call")
+	var tobj *types.TypeName
+	switch nt := cc.Value.Type().(type) {
+	case *types.Named:
+		tobj = nt.Obj()
+	case *types.Alias:
+		tobj = nt.Obj()
+	}
+	if nt := tobj; nt != nil && nt.Pkg() != nil {
+		key := nt.Pkg().Path() + "." + nt.Name() + ".call"
+		if ct := c.W.Specs.Contracts[key]; ct != nil {
+			f.oblige("nil", f.srcKey(pos, "call "+nt.Name()), not(eq(fv.T, "0")), pos, "call of a nil function value")
+			return f.applyContract(ct, nil, cc.Signature(), args, rt, st, pos)
+		}
+	}
 	c.note("call through unknown function value in %s: havoc", f.fn.Name())
 	return f.havocCall("funcvalue", rt, st)
 }
